@@ -34,6 +34,7 @@ import (
 // splitter's shard hand-out across split/merge/discovery/finish/checkpoint+restore histories.
 func splitterParts(k *report.Check) {
 	k.Explore("splitters/embedded+httpapi", mc.Config{Workers: 1}, nil, simpleSplitters)
+	k.Explore("embedded-reader", mc.Config{Workers: 1}, nil, embeddedReaderBody)
 	k.Explore(fmt.Sprintf("kinesis-reader/d=%d", k.Pick(6, 8)), mc.Config{Deadline: k.Within(0.15)}, k.Pick(6, 8), kinesisReaderBody)
 	k.ExploreSched(fmt.Sprintf("kinesis-splitter/d=%d", k.Pick(6, 7)), mc.Config{Bound: 0, Deadline: k.Within(0.4)}, k.Pick(6, 7), kinesisBody)
 }
